@@ -1,4 +1,4 @@
-import SqlProofs.WsInv.Invariant
+import SqlProofs.WsInv.Ends
 import SqlModel.Grouping.WsDomain
 /-!
 # SqlProofs.WsInv.WsInvariant — grouping does not depend on how whitespace is spelled (property C11, second half)
@@ -16,18 +16,19 @@ The domain (`InDomain fuel st`, decidable):
   run reaching the end of the list is not grouped (witness pairs in the report: the full statement is *false*);
 * no `:=` token — `group_assignment` groups up to the next `;` and then goes on matching *stale* snapshot elements
   at indexes that depend on the number of whitespace tokens (finding; witness pairs in the report);
-* `WsDomain`: on the two intermediate trees on which `group_functions` and `group_where` run, (a) the
-  `CREATE TABLE … AS` test of `group_functions`, which reads the text of every child *including whitespace*, has the
-  same outcome with and without the whitespace children, at every level; (b) every parenthesis/bracket group starts
-  and ends with a child that is neither whitespace nor `WHERE` (`group_where` takes `_groupable_tokens[-1]` =
-  `tokens[-2]` blindly).  Both hold for every tree the real code builds (the first/last child of a parenthesis are its
-  brackets; no whitespace token or group spells `CREATE`/`TABLE`/`AS`); in the abstract model they have to be
-  assumed — they are evaluated by the driver (`wsdomain`).
+* `WsDomain`: on the intermediate tree on which `group_functions` runs, the `CREATE TABLE … AS` test of
+  `group_functions`, which reads the text of every child *including whitespace*, has the same outcome with and without
+  the whitespace children, at every level.  It holds for every tree the real code builds (no whitespace token or
+  group spells `CREATE`/`TABLE`/`AS`); in the abstract model (arbitrary token values, arbitrary `upper`) it has to be
+  assumed — it is evaluated by the driver (`wsdomain`).
 
 Passes proved to commute with `skel` unconditionally (20 of 25): the six `_group_matching` passes, `group_over`,
 `group_period`, `group_arrays`, `group_identifier`, `group_order`, `group_typecasts`, `group_tzcasts`,
 `group_typed_literal` (both runs), `group_operator`, `group_comparison`, `group_as`, `group_aliased`,
-`group_identifier_list`, `group_values`.  On a domain: `group_functions`, `group_where` (see above).
+`group_identifier_list`, `group_values`.
+`group_where`: commutes when every parenthesis/bracket group starts and ends with a child that is neither whitespace
+nor `WHERE` (`_groupable_tokens[-1]` = `tokens[-2]` is taken blindly) — proved for the tree it receives (`Ends.lean`).
+`group_functions`: commutes on `WsDomain` (see above).
 Identity on the domain (not analysed further): `group_comments`, `group_assignment`, `align_comments`.
 -/
 namespace Sql
@@ -193,9 +194,18 @@ theorem groupWith_skel {fuel : Nat} {st : List Tok} {r : List Node} (hd : InDoma
   have h8' : runPasses u fuel .Statement (Gen.passOrder.take 8) (flatStatement st) = .ok m8 := by
     rw [passOrder_take8]
     exact runPasses_append_ok _ _ _ _ _ (by rw [runPasses_single]; exact h1) h8
+  -- the ends of the parenthesis/bracket groups of m9 are plain
+  have hw2 : whOKL u m9 = true := by
+    have hs1 : seg1 = ["group_brackets", "group_parenthesis", "group_case", "group_if", "group_for", "group_begin"] ++
+        ["group_over"] := rfl
+    rw [hs1] at h8
+    obtain ⟨m7, h7, h8o⟩ := runPasses_append _ _ _ _ h8
+    have hl7 := runPasses_lend _ _ _ (by decide) h7 (lendL_flat st)
+    have hb8 := runPasses_brEnds _ _ _ (by decide) h8o (lendL_brackets m7 hl7)
+    exact whOKL_of_brackets m9 (runPasses_brEnds _ _ _ (by decide) h9 hb8)
   rw [runPasses_single] at h9 h10
-  simp only [WsDomain, h8', h9, Bool.and_eq_true] at hwd
-  obtain ⟨⟨hf1, hf2⟩, hw2⟩ := hwd
+  simp only [WsDomain, h8', Bool.and_eq_true] at hwd
+  obtain ⟨hf1, hf2⟩ := hwd
   have s9 : passByName u "group_functions" fuel .Statement (skelL m8) = .ok (skelL m9) := by
     rw [passByName_functions_eq] at h9 ⊢
     exact functionsPass_skel fuel _ _ _ ⟨hf1, hf2⟩ h9
